@@ -6,3 +6,4 @@ class ImpedanceSquaredMixin(object):
     is_impedancesquared = True
     is_squared = True
     is_ratio = True
+    is_undefined = False
